@@ -59,7 +59,7 @@ func (k *kase) sharedValues() string {
 
 	// the shared Go value
 	cb := newBuilder(r, sep)
-	cb.noInlineCfg = true
+	cb.noInlineCfg, cb.noNilInline = true, true
 	var V interface{}
 	var snaps []cfgSnap
 	switch form {
@@ -208,7 +208,7 @@ func (k *kase) sharedValues() string {
 	}
 	for _, s := range spellings {
 		ob := newBuilder(r, sep)
-		ob.noInlineCfg = true
+		ob.noInlineCfg, ob.noNilInline = true, true
 		ob.noInline = sameName > 0 // an inline map can not hold one name twice
 		src := ob.node(s, carrier, true)
 		k.res.Eval(ob.evals)
